@@ -4,10 +4,12 @@ package gen
 
 import (
 	"sort"
+	"strconv"
 	"strings"
 	"sync"
 
 	"github.com/yuin/goldmark"
+	"github.com/yuin/goldmark/ast"
 	"github.com/yuin/goldmark/extension"
 	"github.com/yuin/goldmark/parser"
 	"github.com/yuin/goldmark/renderer"
@@ -24,10 +26,22 @@ type Config struct {
 	AutoID, Attr                 bool
 	Unsafe, XHTML, HardWraps     bool
 	TableAlign                   int // 0 default, 1 attribute, 2 style, 3 none
-	FnPrefix                     int // footnote id prefix: 0 none, 1 "x-", 2 "doc-", 3 "article12-"
+	// footnote id prefix: 0 none; 1 "x-", 2 "doc-", 3 "article12-" through NewFootnote(WithFootnoteIDPrefix);
+	// 4 "x-" through goldmark.WithRendererOptions(WithFootnoteIDPrefix) (reaches the renderer by option name,
+	// after it was constructed); 5 a prefix *function* whose value depends on the document being rendered
+	FnPrefix int
 }
 
-var fnPrefixes = []string{"", "x-", "doc-", "article12-"}
+var fnPrefixes = []string{"", "x-", "doc-", "article12-", "x-", ""}
+
+// FnPrefixFunc derives a per-document prefix from the tree the node belongs to (number of top-level blocks).
+func FnPrefixFunc(n ast.Node) []byte {
+	root := n
+	for root.Parent() != nil {
+		root = root.Parent()
+	}
+	return []byte("d" + strconv.Itoa(root.ChildCount()) + "-")
+}
 
 // String is the canonical, parseable name.
 func (c Config) String() string {
@@ -159,9 +173,12 @@ func (c Config) Extensions() []goldmark.Extender {
 		exts = append(exts, extension.DefinitionList)
 	}
 	if c.Footnote {
-		if c.FnPrefix != 0 {
-			exts = append(exts, extension.NewFootnote(extension.WithFootnoteIDPrefix(fnPrefixes[c.FnPrefix%len(fnPrefixes)])))
-		} else {
+		switch {
+		case c.FnPrefix >= 1 && c.FnPrefix <= 3:
+			exts = append(exts, extension.NewFootnote(extension.WithFootnoteIDPrefix(fnPrefixes[c.FnPrefix])))
+		case c.FnPrefix == 5:
+			exts = append(exts, extension.NewFootnote(extension.WithFootnoteIDPrefixFunction(FnPrefixFunc)))
+		default: // 0, and 4 (the prefix arrives through RendererOptions)
 			exts = append(exts, extension.Footnote)
 		}
 	}
@@ -204,6 +221,9 @@ func (c Config) RendererOptions() []renderer.Option {
 	}
 	if c.HardWraps {
 		o = append(o, html.WithHardWraps())
+	}
+	if c.Footnote && c.FnPrefix == 4 {
+		o = append(o, extension.WithFootnoteIDPrefix(fnPrefixes[4]))
 	}
 	return o
 }
@@ -253,6 +273,8 @@ var Representative = []Config{
 	{Table: true, TableAlign: 2, Attr: true},
 	{Table: true, Strike: true, Task: true, Footnote: true, XHTML: true},
 	{GFM: true, Footnote: true, FnPrefix: 2, Typo: true},
+	{Table: true, Footnote: true, FnPrefix: 5, XHTML: true},
+	{GFM: true, Footnote: true, FnPrefix: 4, DefList: true},
 }
 
 // ConfigOpts restricts DrawConfig.
@@ -287,7 +309,7 @@ func DrawConfig(t *rapid.T, o ConfigOpts) Config {
 			c.TableAlign = int((bits >> 18) % 4)
 		}
 		if b(20) && b(21) {
-			c.FnPrefix = 1 + int((bits>>22)%3)
+			c.FnPrefix = 1 + int((bits>>22)%5)
 		}
 	}
 	if o.SafeOnly {
